@@ -5,7 +5,7 @@ from props._script import run_script_property
 def run():
     from props._script import DEFAULT_KINDS
     chk = run_script_property(
-        "C01", "model_checking", exceptions_count=True, kinds=DEFAULT_KINDS + ["mixedopts"],
+        "C01", "model_checking", exceptions_count=True, kinds=DEFAULT_KINDS + ["mixedopts", "dupkeys"],
         extra_rule="C01 clauses: every element accounted for exactly once per side and frame, list order kept per "
                    "side, components paired by role, annotated-tree marks equal the script's removals/insertions; "
                    "EditScriptMC proves (TLC, small documents) that a script breaking no clause reads back both documents.")
